@@ -41,7 +41,7 @@ SPECS = [
     {'conv': 'cf2d', 'ny': 3, 'nx': 4, 'bounds': 'coords'},
     {'conv': 'cf1d', 'ny': 3, 'nx': 4, 'bounds': 'coords'},
 ]
-GEOMS = ['box centre', 'everything', 'edge hugging', 'multi', 'point']
+GEOMS = ['box centre', 'everything', 'edge hugging', 'multi', 'point', 'all but a border cell']
 
 
 def _shared_parts(polys):
@@ -65,6 +65,8 @@ def geometries(ds):
         'point': shapely.Point(polys[len(polys) // 2].representative_point()),
         # several parts inside / touching the same cells (a cell hit by two parts must still be selected once)
         'parts sharing cells': _shared_parts(polys),
+        # every cell but one on the border (not a corner): its outer side joins two nodes that survive although the side itself does not
+        'all but a border cell': shapely.MultiPoint([p.representative_point() for n, p in enumerate(polys) if n != 1]),
     }
 
 
